@@ -985,7 +985,8 @@ pub fn rare_regions(c: &mut HistCfg, index: u64) {
     // maps emptied completely: in the middle (then refilled) and at the end
     c.empty_mid = index % 9 == 2;
     c.empty_end = index % 25 == 7;
-    if index % 20 == 11 {
+    if index % 20 == 6 {
+        // (6 does not collide with the selectors below: 21, 33, 57, 91 mod 20 are 1, 13, 17, 11)
         // both files end just below 16 KiB, a table of 1-2 buckets, keys that exactly fill their
         // records: the next overwrites relocate key records along the chain (cascades up to the head)
         c.prelude = Prelude::NearEnd { bytes: 16384, slack: (index / 20 % 6) as u8 };
